@@ -260,8 +260,19 @@ class DictField(Field):
             return value
         if isinstance(value, dict):
             # undo the key/value encoding done by to_basic() before the entries are validated
-            value = {
-                self.key_field.to_python(cfg, key): self.value_field.to_python(cfg, val)  # type: ignore
-                for key, val in value.items()
-            }
+            decoded = {}
+            for key, val in value.items():
+                try:
+                    decoded[self.key_field.to_python(cfg, key)] = self.value_field.to_python(cfg, val)  # type: ignore
+                except Exception as exc:
+                    # name the entry, as a rejection of the decoded entry would
+                    cfg_path = getattr(cfg, "_ref_path", "")
+                    base = "%s.%s" % (cfg_path, self._key) if cfg_path else self._ref_path
+                    raise ValidationError(
+                        cfg,
+                        self,
+                        "invalid dictionary entry: %s" % exc,
+                        ref_path="%s[%s]" % (base, key),
+                    ) from exc
+            value = decoded
         return DictProxy(cfg, self, value)
